@@ -90,6 +90,12 @@ def replace_expr(tree: ast.AST, pred, new_expr, scope: ast.AST | None = None, co
     return done
 
 
+def insert(tree: ast.AST, anchor: str, new_text: str, after: bool = False, scope: ast.AST | None = None) -> None:
+    """Insert the statements of `new_text` before (or after) the first statement whose source starts with `anchor`."""
+    new = stmts(new_text)
+    replace_stmt(tree, lambda s: ast.unparse(s).startswith(anchor), (lambda s: [s] + new) if after else (lambda s: new + [s]), scope=scope)
+
+
 def src_is(node: ast.AST, text: str) -> bool:
     try:
         return ast.unparse(node) == text
